@@ -28,6 +28,11 @@ CLEAN = [(16000, 1, 2048, 24000, 1, 5, 0, 0, 0, 1000, 0, 11, 16000, 1), (16000, 
 STRONG = [(16000, 1, 2048, 32000, 1, 5, 1, 20, 0, 1000, 0, 1, 16000, 1), (16000, 1, 2048, 40000, 1, 10, 1, 30, 0, 1000, 0, 11, 16000, 1),
           (16000, 1, 2048, 64000, 1, 5, 1, 20, 0, 1000, 0, 12, 16000, 1), (16000, 1, 2048, 48000, 0, 7, 1, 25, 0, 1000, 0, 11, 16000, 1),
           (16000, 1, 2048, 36000, 1, 3, 1, 40, 0, 1000, 0, 12, 16000, 1), (16000, 1, 2048, 40000, 1, 8, 2, 20, 0, 1000, 0, 1, 16000, 1)]
+# sharp convergence (one isolated loss at EVERY position of a talk-spurt signal; stream held in one speech-family mode)
+CONV = [(16000, 1, 2048, 24000, 1, 5, 0, 0, 0, 1000, 0, 11, 16000, 1), (48000, 1, 2048, 32000, 1, 5, 0, 0, 0, 1001, 1105, 11, 48000, 1),
+        (16000, 2, 2048, 40000, 1, 7, 1, 20, 0, 1000, 0, 11, 16000, 2), (48000, 2, 2048, 48000, 0, 5, 1, 10, 0, 1001, 1104, 11, 48000, 2),
+        (24000, 1, 2048, 28000, 1, 10, 0, 0, 0, 1001, 1104, 11, 24000, 1), (16000, 1, 2048, 40000, 1, 10, 1, 25, 0, 1000, 0, 11, 48000, 2),
+        (24000, 1, 2048, 20000, 1, 2, 0, 0, 0, 1000, 1103, 11, 24000, 1), (48000, 1, 2048, 64000, 1, 8, 0, 0, 0, 1001, 1105, 11, 16000, 1)]
 DTXS = [(16000, 1, 2048, 24000, 1, 5, 0, 0, 1, 1000, 0, 10, 16000, 1), (48000, 1, 2049, 32000, 1, 10, 0, 0, 1, 0, 0, 10, 48000, 1),
         (8000, 1, 2048, 12000, 1, 3, 1, 10, 1, 1000, 0, 10, 8000, 2)]
 
@@ -77,6 +82,9 @@ def gen_schedules(ctx, tier):
             bursts.append((m.group(1), int(m.group(2)), int(m.group(3)), m.group(4).split(), m.group(5).split(), int(m.group(6)), m.group(7).split()))
     if not sched or not bursts:
         raise vf.Infra("Link_mc gen emitted no schedules")
+    # TLC's workers print in an order that changes from run to run: sort, so that everything derived is repeatable (R4)
+    sched.sort(key=lambda x: (x[1], x[0], x[2]))
+    bursts.sort(key=lambda x: (x[1], x[0], x[2]))
     return sched, bursts
 
 
@@ -107,6 +115,18 @@ def build_scripts(ctx, sched, bursts, tier):
             ws.append("W %d | %s | %s" % (start, " ".join(rt), " ".join(rf)))
             metas.append((pol, U, bits))
         streams.append((L, ws, metas))
+    # one isolated loss at every packet position of the stream (schedule of the fate pattern 100..0 under policy PW)
+    one = "1" + "0" * (K - 1)
+    for ci, c in enumerate(CONV if tier == "thorough" else CONV[:2]):
+        for U in ((4, 8) if tier == "thorough" else (4,)):
+            if (U, one) not in ref or (c[9] == 1001 and U > 8 and False):
+                continue
+            tl, ntail = tail_tokens(U)
+            span = 1200 // U
+            npk = span + 5 + K + ntail + 1
+            L = "L %d %d %d %d %d %d %d %d %d %d %d %d %d %d %d %d %d" % (c[:9] + (U,) + c[9:12] + (rng.randrange(1, 1 << 30),) + c[12:14] + (npk,))
+            ws = ["W %d | %s |" % (st, " ".join(shift(ref[(U, one)], st) + tl)) for st in range(0, span)]
+            streams.append((L, ws, [("PW", U, "pos%d" % st) for st in range(0, span)]))
     # bursts
     blist = [(b, None) for b in bursts]
     # sustained loss on the clean families (speech / hybrid layer): 1.5 s in both tiers, 3 s and 10 s in thorough
@@ -167,7 +187,7 @@ def run_streams(ctx, exe, streams, tag):
 
 OBS = dict(fec_frames=0, fec_err=0, plc_err=0, worst_stream_fec_ratio_x1000=None, max_over_level_cdB=-100000, n_over=0,
            max_after_400ms_cdB=-100000, n_after_400ms=0, max_after_1s_cdB=-100000, max_after_2s_cdB=-100000, max_tail_err_rel_cdB=-100000, n_tail=0, drift=0,
-           strong_fec_streams=0, strong_fec_frames=0, worst_strong_fec_ratio_x1000=None, clean_speech_max_after_400ms_cdB=-100000, clean_speech_max_after_1s_cdB=-100000, n_clean_speech_after_400ms=0)
+           strong_fec_streams=0, strong_fec_frames=0, worst_strong_fec_ratio_x1000=None, isolated_loss_worst_packet_rel_cdB=-100000, n_isolated_loss_tails=0, clean_speech_max_after_400ms_cdB=-100000, clean_speech_max_after_1s_cdB=-100000, n_clean_speech_after_400ms=0)
 
 
 def read_prints(r, trace=None):
@@ -186,7 +206,9 @@ def read_prints(r, trace=None):
         if not p.startswith('"OBS <<'):
             continue
         v = [int(t) for t in p[7:-3].split(", ")]
-        x, nf, sf, sp, o1, n1, o2, n2, o4, n4, o2b, o2c, o5, o5b, n5, nf3, sf3, sp3 = v
+        x, nf, sf, sp, o1, n1, o2, n2, o4, n4, o2b, o2c, o5, o5b, n5, nf3, sf3, sp3, o6, n6 = v
+        if n6:
+            OBS["isolated_loss_worst_packet_rel_cdB"] = max(OBS["isolated_loss_worst_packet_rel_cdB"], o6); OBS["n_isolated_loss_tails"] += n6
         OBS["max_after_1s_cdB"] = max(OBS["max_after_1s_cdB"], o2b); OBS["max_after_2s_cdB"] = max(OBS["max_after_2s_cdB"], o2c)
         OBS["fec_frames"] += nf; OBS["fec_err"] += sf; OBS["plc_err"] += sp
         if nf >= 20 and sp > 0:
@@ -412,10 +434,13 @@ def run(ctx):
     sl = [(L, ws[:6], m[:6]) for (L, ws, m) in sl]
     for k, ip, b, out, rc, err in run_streams(ctx, exe2, sl, "c09san"):
         if rc != 0:
+            rc2, err2 = vf.run_hx(exe2, ["c09"], ctx.path("again_san_%02d.ndjson" % k), stdin_path=ip, timeout=3000)
+            if rc2 == 0:
+                raise vf.Infra("hx_link (sanitizer build) aborted rc=%d on %s but not when run again: %s" % (rc, ip, err[-800:]))
             ctx.violation("hx_link (sanitizer build) aborted rc=%d on %s: %s" % (rc, os.path.basename(ip), err[-1500:]), replay_src=ip)
     for (L, ws, metas) in streams:
         for m in metas:
-            if "1" in m[2] or m[2].startswith("burst"):
+            if "1" in m[2] or m[2].startswith("burst") or m[2].startswith("pos"):
                 ctx.nontrivial.add(hash((tuple(L.split()[1:14]), m)))
     ctx.traces = NEV["windows"]
     ctx.evaluations = NEV["events"]
